@@ -1,10 +1,10 @@
 package rules
 
 import (
-	"go/types"
-	"sort"
 	"fmt"
 	"go/token"
+	"go/types"
+	"sort"
 	"strings"
 
 	"golang.org/x/tools/go/ssa"
@@ -211,63 +211,80 @@ func checkCASWriter(c *Ctx, f *ssa.Function, table string) {
 	// guards
 	rows := rowReads(f, table)
 	aliases := aliasesOf(f, rows)
-	var verEq, uidEq, rowNil, rowNonNil, vsnEmpty []core.Edge
-	for _, b := range f.Blocks {
-		for _, in := range b.Instrs {
-			cmp, ok := in.(*ssa.BinOp)
-			if !ok || (cmp.Op != token.EQL && cmp.Op != token.NEQ) {
-				continue
-			}
-			te, fe := core.CondEdges(cmp)
-			eq, ne := te, fe
-			if cmp.Op == token.NEQ {
-				eq, ne = fe, te
-			}
-			ax, ay := core.AccessOf(cmp.X), core.AccessOf(cmp.Y)
-			isRow := func(a core.Access) bool {
-				if aliases[a.Root] {
-					return true
-				}
-				ra := core.AccessOf(a.Root)
-				return len(ra.Fields) == 0 && aliases[ra.Root]
-			}
-			switch {
-			case (ax.LastField() == "Version" && isRow(ax)) || (ay.LastField() == "Version" && isRow(ay)):
-				verEq = append(verEq, eq...)
-			case (ax.LastField() == "Uid" && isRow(ax)) || (ay.LastField() == "Uid" && isRow(ay)):
-				uidEq = append(uidEq, eq...)
-			}
-			// vsn == ""
-			if s, ok := core.ConstString(cmp.Y); ok && s == "" {
-				if _, isParam := cmp.X.(*ssa.Parameter); isParam {
-					vsnEmpty = append(vsnEmpty, eq...)
-				}
-			}
-			_ = ne
+	// guard edges of the function and of the predicates / checkers it calls (core.GuardEdges)
+	isRowVal := func(v ssa.Value) bool {
+		if aliases[v] {
+			return true
 		}
+		a := core.AccessOf(v)
+		return len(a.Fields) == 0 && aliases[a.Root]
 	}
-	for al := range aliases {
-		for _, cmp := range nilCmps(al) {
-			te, fe := core.CondEdges(cmp)
-			if cmp.Op == token.EQL {
-				rowNil = append(rowNil, te...)
-				rowNonNil = append(rowNonNil, fe...)
-			} else {
-				rowNil = append(rowNil, fe...)
-				rowNonNil = append(rowNonNil, te...)
+	isRow := func(a core.Access) bool {
+		if aliases[a.Root] {
+			return true
+		}
+		ra := core.AccessOf(a.Root)
+		return len(ra.Fields) == 0 && aliases[ra.Root]
+	}
+	classify := func(cv core.CmpView) string {
+		if cv.Op != token.EQL && cv.Op != token.NEQ {
+			return ""
+		}
+		if (core.IsNilConst(cv.Y) && isRowVal(cv.X)) || (core.IsNilConst(cv.X) && isRowVal(cv.Y)) {
+			return "rownil"
+		}
+		ax, ay := core.AccessOf(cv.X), core.AccessOf(cv.Y)
+		switch {
+		case (ax.LastField() == "Version" && isRow(ax)) || (ay.LastField() == "Version" && isRow(ay)):
+			return "ver"
+		case (ax.LastField() == "Uid" && isRow(ax)) || (ay.LastField() == "Uid" && isRow(ay)):
+			return "uid"
+		}
+		if sv, ok := core.ConstString(cv.Y); ok && sv == "" {
+			if _, isParam := core.Bound(cv.X).(*ssa.Parameter); isParam {
+				return "vsnempty"
 			}
 		}
+		return ""
 	}
+	eqSide := func(cv core.CmpView) (bool, bool) { return cv.Op == token.EQL, cv.Op == token.NEQ }
+	neSide := func(cv core.CmpView) (bool, bool) { return cv.Op == token.NEQ, cv.Op == token.EQL }
+	count := map[string]int{}
+	edgesFor := func(kinds map[string]bool, rowNilSide string) []core.Edge {
+		return core.GuardEdges(f, 2, func(cv core.CmpView) (bool, bool) {
+			k := classify(cv)
+			if k == "" {
+				return false, false
+			}
+			count[k]++
+			if k == "rownil" {
+				switch rowNilSide {
+				case "nil":
+					return eqSide(cv)
+				case "nonnil":
+					return neSide(cv)
+				}
+				return false, false
+			}
+			if kinds[k] {
+				return eqSide(cv)
+			}
+			return false, false
+		})
+	}
+	verCut := edgesFor(map[string]bool{"ver": true}, "nil")
+	uidCut := edgesFor(map[string]bool{"uid": true}, "nil")
+	vsnCut := edgesFor(map[string]bool{"vsnempty": true}, "nonnil")
 	gbad := ""
-	if len(verEq) == 0 || !core.CutMakesUnreachable(f, nil, append(append([]core.Edge{}, verEq...), rowNil...), write) {
+	if count["ver"] == 0 || !core.CutMakesUnreachable(f, nil, verCut, write) {
 		gbad = "the table write is reachable with an existing row whose Version differs from the caller's: of two writers presenting the same version both can succeed"
 	}
-	if gbad == "" && (len(uidEq) == 0 || !core.CutMakesUnreachable(f, nil, append(append([]core.Edge{}, uidEq...), rowNil...), write)) {
+	if gbad == "" && (count["uid"] == 0 || !core.CutMakesUnreachable(f, nil, uidCut, write)) {
 		gbad = "the table write is reachable with an existing row whose Uid differs from the caller's: a stale writer/deleter can touch a re-created resource"
 	}
 	isInsert := core.AsMemdbOp(write).Op == "Insert"
 	if gbad == "" && isInsert {
-		if len(vsnEmpty) == 0 || !core.CutMakesUnreachable(f, nil, append(append([]core.Edge{}, vsnEmpty...), rowNonNil...), write) {
+		if count["vsnempty"] == 0 || !core.CutMakesUnreachable(f, nil, vsnCut, write) {
 			gbad = "a resource can be created (no existing row) with a non-empty version: a stale writer re-creates a deleted resource"
 		}
 	}
@@ -393,7 +410,18 @@ func subjectKeyCoverage(c *Ctx, rule, pkgRel, short string, handlers []*ssa.Func
 	}
 	read := map[string]map[string]*types.Var{}
 	where := map[string]*ssa.Function{}
+	// a handler may delegate the reading of the subject to helpers of its package
+	var expanded []*ssa.Function
+	seenH := map[*ssa.Function]bool{}
 	for _, h := range handlers {
+		for _, g := range funcGroup(h, 2) {
+			if !seenH[g] && g.Name() != "String" {
+				seenH[g] = true
+				expanded = append(expanded, g)
+			}
+		}
+	}
+	for _, h := range expanded {
 		for _, b := range h.Blocks {
 			for _, in := range b.Instrs {
 				var x ssa.Value
@@ -452,16 +480,18 @@ func subjectKeyCoverage(c *Ctx, rule, pkgRel, short string, handlers []*ssa.Func
 			continue
 		}
 		keyed := map[string]bool{}
-		for _, b := range str.Blocks {
-			for _, in := range b.Instrs {
-				switch v := in.(type) {
-				case *ssa.Field:
-					if nt := core.NamedOf(v.X.Type()); nt != nil && nt.Obj().Name() == tn {
-						keyed[core.FieldObj(v).Name()] = true
-					}
-				case *ssa.FieldAddr:
-					if nt := core.NamedOf(v.X.Type()); nt != nil && nt.Obj().Name() == tn {
-						keyed[core.FieldObj(v).Name()] = true
+		for _, sg := range funcGroup(str, 1) {
+			for _, b := range sg.Blocks {
+				for _, in := range b.Instrs {
+					switch v := in.(type) {
+					case *ssa.Field:
+						if nt := core.NamedOf(v.X.Type()); nt != nil && nt.Obj().Name() == tn {
+							keyed[core.FieldObj(v).Name()] = true
+						}
+					case *ssa.FieldAddr:
+						if nt := core.NamedOf(v.X.Type()); nt != nil && nt.Obj().Name() == tn {
+							keyed[core.FieldObj(v).Name()] = true
+						}
 					}
 				}
 			}
